@@ -15,7 +15,7 @@ func init() { register("C18", "exploration", checkC18) }
 func checkC18(r *ev.Run) {
 	nScripts := r.N(16, 200)
 	perScript := r.N(60, 160)
-	r.Rule("case = one send transaction inside a generated block (1-5 sends per block, 12 plain accounts): amounts {1, small, balance-fee-1, balance-fee, balance-fee+1, balance, balance+1, 10^18, 0, negative} relative to the generator's running balance estimate; recipients {existing account, brand-new address, self, module accounts}; executed by the real app with a decoded state snapshot before and after every DeliverTx. Oracle on observed states: accepted => delta == {sender -amount-fee, recipient +amount, fee collector +fee} (self-send: fee only); rejected => delta is {sender -fee, collector +fee} or empty; sender that could not cover amount+fee in the pre-state must be rejected; nothing but the auth store changes; post-state coin sets canonical and supply == sum of balances. Non-trivial = distinct (amount class, recipient class, outcome) triple; distinct_nontrivial counts those triples.")
+	r.Rule("case = one send transaction inside a generated block (1-5 sends per block, 12 plain accounts): amounts {1, small, balance-fee-1, balance-fee, balance-fee+1, balance, balance+1, 10^18, 0, negative} relative to the generator's running balance estimate; recipients {existing account, brand-new address, self, module accounts, a 21- or 19-byte address sharing its leading bytes with an existing account}; executed by the real app with a decoded state snapshot before and after every DeliverTx. Oracle on observed states: accepted => delta == {sender -amount-fee, recipient +amount, fee collector +fee} (self-send: fee only); rejected => delta is {sender -fee, collector +fee} or empty; sender that could not cover amount+fee in the pre-state must be rejected; nothing but the auth store changes; post-state coin sets canonical and supply == sum of balances. Non-trivial = distinct (amount class, recipient class, outcome) triple; distinct_nontrivial counts those triples.")
 	ev.ForEach(nScripts, workers(), func(si int) {
 		if r.Only != "" && r.Only != "*" && r.Only != fmt.Sprint(si) {
 			return
@@ -67,7 +67,17 @@ func checkC18(r *ev.Run) {
 				var to int
 				var rc string
 				toAddr := ""
-				switch rr.Intn(8) {
+				var oddTo []byte
+				switch rr.Intn(9) {
+				case 8:
+					// an address of unusual length (the message only requires it to be non-empty) that shares its leading
+					// bytes with an existing account: one byte longer, or one byte shorter
+					base := chain.Addr(accts[rr.Intn(len(accts))])
+					if rr.Intn(2) == 0 {
+						oddTo, rc = append(append([]byte{}, base...), byte(1+rr.Intn(3))), "existing-address-plus-one-byte"
+					} else {
+						oddTo, rc = append([]byte{}, base[:len(base)-1]...), "existing-address-minus-one-byte"
+					}
 				case 0:
 					fresh++
 					to, rc = chain.KeyFresh0+700+fresh+si*1000, "new"
@@ -82,6 +92,9 @@ func checkC18(r *ev.Run) {
 					}
 				}
 				var msg = chain.MsgSend(chain.Addr(from), chain.Addr(to), amt)
+				if oddTo != nil {
+					msg = chain.MsgSend(chain.Addr(from), oddTo, amt)
+				}
 				if rc == "module" {
 					// addresses of module accounts are hashes of their names; read from the default universe lazily in the oracle
 					toAddr = "module"
